@@ -47,7 +47,7 @@ def _options(buf):
     return o
 
 
-TOK = {n: ('TOK-%s-out' % n, 'TOK-%s-err' % n, ('TOK-%s-out\n' % n).encode()) for n in ('t0', 't1', 't2')}   # built at import, untraced
+TOK = {n: ('TOK-%s-out' % n, 'TOK-%s-err' % n, ('TOK-%s-out\n' % n).encode(), 'LATE-%s-out' % n, 'LATE-%s-err' % n) for n in ('t0', 't1', 't2')}   # built at import, untraced
 
 
 def writer(pattern):
@@ -67,8 +67,15 @@ def writer(pattern):
     return out
 
 
-def tokens(name, pattern):
+def late_writer(name):
+    print(TOK[name][3])
+    print(TOK[name][4], file=sys.stderr)
+
+
+def tokens(name, pattern, kind=None):
     t = []
+    if kind in (W.SUBPASS_PASS, W.SUBPASS_FAIL):
+        t += [TOK[name][3], TOK[name][4]]
     if pattern in (W_PRINT, W_NONL, W_BOTH, W_BYTES):
         t.append(TOK[name][0])
     if pattern in (W_ERR, W_BOTH):
@@ -91,7 +98,7 @@ def oracle(S, names, kinds, pats, buf, ids, orig):
         starts.append(m.start() if m else -1)
     for i, (nm, k, p) in enumerate(zip(names, kinds, pats)):
         started = k != W.SKIP_DECO
-        for tok in (tokens(nm, p) if started else []):
+        for tok in (tokens(nm, p, k) if started else []):
             c = S.count(tok)
             if not buf or W.is_bad(k):
                 if c != 1:
@@ -116,12 +123,12 @@ def streams(n, k0, k1, k2, p0, p1, p2, buf):
     W.reset()
     n = ci(n, 1, 3)
     buf = cb(buf)
-    kinds = [ci(k, 0, 14) for k in (k0, k1, k2)[:n]]
+    kinds = [ci(k, 0, 16) for k in (k0, k1, k2)[:n]]
     pats = [ci(p, 0, 5) for p in (p0, p1, p2)[:n]]
     names = ['t0', 't1', 't2'][:n]      # literal names: '%'-formatting under CrossHair yields lazily symbolic strings
     with untraced():
         L = W.mk_layer('L', (), hooks='ST')
-        tests = [W.mk_test(nm, k, out=writer(p)) for nm, k, p in zip(names, kinds, pats)]
+        tests = [W.mk_test(nm, k, out=writer(p), late=late_writer) for nm, k, p in zip(names, kinds, pats)]
         suite = unittest.TestSuite(tests)
         raw = KeepBytes()
         out = TextOut(raw, encoding='utf-8', write_through=True)
@@ -156,7 +163,7 @@ def streams_reach(*a):
 
 _P = [('n', 'int'), ('k0', 'int'), ('k1', 'int'), ('k2', 'int'), ('p0', 'int'), ('p1', 'int'), ('p2', 'int'), ('buf', 'bool')]
 _C = ', '.join(n for n, _ in _P)
-_B = '1 <= n <= 3 and ' + ' and '.join('0 <= k%d <= 14 and 0 <= p%d <= 5' % (i, i) for i in range(3))
+_B = '1 <= n <= 3 and ' + ' and '.join('0 <= k%d <= 16 and 0 <= p%d <= 5' % (i, i) for i in range(3))
 
 
 def _v(**kw):
@@ -178,14 +185,14 @@ SPEC = {
     'outside': ['writes through file descriptors 1/2', 'tests that replace sys.stdout themselves', 'more than 3 consecutive tests'],
     'harnesses': [
         {'name': 'streams', 'fn': 'streams', 'params': _P, 'call': _C,
-         # quick: 2 tests, all 15x15 kinds, write pattern of the second test fixed to print()
+         # quick: 2 tests, all 17x17 kinds, write pattern of the second test fixed to print()
          'bounds': {'quick': _B + ' and n <= 2 and p1 == 1 and k2 == 0 and p2 == 0',
                     'thorough': _B + ' and (n <= 2 or (p1 == 1 and p2 == 1 and buf))'},
-         'slices': {'quick': ['k0 == %d and %s' % (k, b) for k in range(15) for b in ('buf', 'not buf')],
-                    'thorough': ['k0 == %d and n == %d and %s' % (k, n, b) for k in range(15) for n in (1, 2, 3) for b in ('buf', 'not buf')]},
+         'slices': {'quick': ['k0 == %d and %s' % (k, b) for k in range(17) for b in ('buf', 'not buf')],
+                    'thorough': ['k0 == %d and n == %d and %s' % (k, n, b) for k in range(17) for n in (1, 2, 3) for b in ('buf', 'not buf')]},
          'reach': 'streams_reach', 'reach_bounds': {'quick': _B + ' and n == 2 and p1 == 1 and k2 == 0 and p2 == 0 and buf and p0 == 4',
                                                     'thorough': _B + ' and n == 2 and p1 == 1 and k2 == 0 and p2 == 0 and buf and p0 == 4'},
          'timeout': {'quick': 240, 'thorough': 850},
-         'fidelity': [_v(), _v(k0=6, p0=1), _v(n=3, k0=7, k1=4, k2=9, p0=2, p1=5, p2=3), _v(buf=False, k0=5, p0=5)]},
+         'fidelity': [_v(), _v(k0=6, p0=1), _v(k0=16, k1=15, p0=4), _v(n=3, k0=7, k1=4, k2=9, p0=2, p1=5, p2=3), _v(buf=False, k0=5, p0=5)]},
     ],
 }
